@@ -51,9 +51,13 @@ def _mk_results(case, ref, est):
     out = []
     for k in range(2 + case["misc"]["k"] % 3):
         r = evo_result.Result()
-        r.add_info({"title": "t%d" % k, "est_name": "e%d" % k, "ref_name": "r"})
+        r.add_info({"title": "t%d" % k, "ref_name": "r"} if case["misc"].get("no_est_name") else {"title": "t%d" % k, "est_name": "e%d" % k, "ref_name": "r"})
         r.add_stats({"rmse": 1.0 + k, "mean": 0.5 * k})
         r.add_np_array("error_array", np.arange(3 + (k if case["misc"]["uneven"] else 0), dtype=float) + k)
+        if case["misc"].get("with_traj"):
+            # results as ape()/rpe() return them: the processed trajectories attached
+            r.add_trajectory("ref", ref.build(case["ref"]["pre"], timed=True))
+            r.add_trajectory("est", est.build(case["est"]["pre"], timed=False))
         out.append(r)
     return out
 
@@ -176,7 +180,18 @@ def _f_filters(case, ref, est):
 def _f_merge_results(case, ref, est):
     rs = _mk_results(case, ref, est)
     yield [rs] + rs
-    evo_result.merge_results(rs)
+    merged = evo_result.merge_results(rs)
+    # the merged result is an object of its own: working on it later must not reach the inputs
+    snaps = _snap_all(rs)
+    merged.info["title"] = "changed"
+    merged.stats["rmse"] = -1.0
+    for a in merged.np_arrays.values():
+        a *= 2.0
+    for t in merged.trajectories.values():
+        t.scale(2.0)
+        t.transform(rm.se3(np.eye(3), np.array([1.0, 2.0, 3.0])))
+        t.reduce_to_ids([0])
+    _diff_all(snaps, rs, "modifying the result returned by merge_results")
 
 
 @reg("trajectory.merge")
@@ -467,7 +482,7 @@ def sub_ctor_alias(case):
 
 st_misc = st.fixed_dictionaries({
     "relation": st.sampled_from([r.value for r in PoseRelation if r is not PoseRelation.point_distance_error_ratio]),
-    "flag": st.booleans(), "k": st.integers(0, 5), "uneven": st.booleans(), "offset": st.sampled_from([0.0, 0.5, -0.001]),
+    "flag": st.booleans(), "k": st.integers(0, 5), "uneven": st.booleans(), "no_est_name": st.booleans(), "with_traj": st.booleans(), "offset": st.sampled_from([0.0, 0.5, -0.001]),
     "plot_mode": st.sampled_from(["xy", "xz", "yx", "yz", "zx", "zy", "xyz"])})
 st_p1 = st.tuples(trajgen.st_pair(2, 8, stamps=True, exp_lo=-1, exp_hi=4), st_misc, st.sampled_from(sorted(REGISTRY))).map(
     lambda t: dict(t[0], misc=t[1], function=t[2]))
